@@ -24,11 +24,9 @@ package client
 //@     assert [retries-enabled] !adapter.options.DisableWatchRetry
 // assumptions about the environment: a context whose Done channel fired reports an error; a decoded
 // WatchResponse has no nil entries in its repeated event field (protobuf decoder)
-// (call names are matched by substring and ordered by position: "Err" also matches fmt.Errorf and zap.Error,
-// the third and fourth such calls of the closure)
 //@   at Err #2
 //@     assume_result [err-after-check] result != nil
-//@   at Err #5
+//@   at Err #3
 //@     assume_result [err-after-done] result != nil
 //@   at Recv #1
 //@     assume_result [decoded-message] result1 == nil ==> (forall i int :: 0 <= i && i < len(result0.Event) ==> result0.Event[i] != nil)
